@@ -1,0 +1,24 @@
+//go:build verif
+
+// Package verifyield provides schedule-perturbation points for runtime verification.
+package verifyield
+
+import "sync/atomic"
+
+var hook atomic.Pointer[func(string)]
+
+// Set installs the function invoked at every yield point (nil removes it).
+func Set(f func(string)) {
+	if f == nil {
+		hook.Store(nil)
+		return
+	}
+	hook.Store(&f)
+}
+
+// Point invokes the installed hook, if any.
+func Point(name string) {
+	if f := hook.Load(); f != nil {
+		(*f)(name)
+	}
+}
